@@ -300,6 +300,22 @@ Comparison Token::CompareOperations(const TokenID left, const TokenID right) {
     { TokenID::PLUS, TokenID::MULTIPLY },
     { TokenID::MINUS, TokenID::MULTIPLY },
 
+    { TokenID::PLUS, TokenID::UNION },
+    { TokenID::PLUS, TokenID::INTERSECTION },
+    { TokenID::PLUS, TokenID::SET_MINUS },
+    { TokenID::PLUS, TokenID::SYMMINUS },
+    { TokenID::PLUS, TokenID::DECART },
+    { TokenID::MINUS, TokenID::UNION },
+    { TokenID::MINUS, TokenID::INTERSECTION },
+    { TokenID::MINUS, TokenID::SET_MINUS },
+    { TokenID::MINUS, TokenID::SYMMINUS },
+    { TokenID::MINUS, TokenID::DECART },
+    { TokenID::MULTIPLY, TokenID::UNION },
+    { TokenID::MULTIPLY, TokenID::INTERSECTION },
+    { TokenID::MULTIPLY, TokenID::SET_MINUS },
+    { TokenID::MULTIPLY, TokenID::SYMMINUS },
+    { TokenID::MULTIPLY, TokenID::DECART },
+
     { TokenID::EQUIVALENT, TokenID::IMPLICATION },
     { TokenID::EQUIVALENT, TokenID::OR },
     { TokenID::EQUIVALENT, TokenID::AND },
